@@ -23,15 +23,61 @@ type smIter struct {
 	zombie bool
 }
 
+// smHandle is the root matrix or a (nested) Slice view of it.  A sparse
+// matrix view shares the value vector of its parent, so every handle denotes
+// a window of the one storage model st.
+type smHandle struct {
+	name  string
+	a     ad.Matrix
+	R, C  int
+	off   func(i, j int) int
+	iters []*smIter
+	depth int
+}
+
 type smWorld struct {
 	c     *core.Ctx
 	e     elemType
+	st    []float64 // storage model of the root, SR x SC row-major
+	SR, SC int
+	hs    []*smHandle
+	cur   *smHandle
+	// window of the current handle (loaded before, stored after every step)
 	a     ad.Matrix
 	m     []float64
 	R, C  int
 	iters []*smIter
 	last  string
 	muts  int
+	viewOps int
+}
+
+func (w *smWorld) load(h *smHandle) {
+	w.cur, w.a, w.R, w.C, w.iters = h, h.a, h.R, h.C, h.iters
+	w.m = make([]float64, h.R*h.C)
+	for i := 0; i < h.R; i++ {
+		for j := 0; j < h.C; j++ {
+			w.m[i*h.C+j] = w.st[h.off(i, j)]
+		}
+	}
+}
+
+func (w *smWorld) store() {
+	h := w.cur
+	h.iters = w.iters
+	if h.R != w.R || h.C != w.C {
+		// Tip on the root (only done when it is the sole handle)
+		h.R, h.C = w.R, w.C
+		w.SR, w.SC = w.R, w.C
+		C := w.C
+		h.off = func(i, j int) int { return i*C + j }
+		w.st = make([]float64, len(w.m))
+	}
+	for i := 0; i < h.R; i++ {
+		for j := 0; j < h.C; j++ {
+			w.st[h.off(i, j)] = w.m[i*h.C+j]
+		}
+	}
 }
 
 func (w *smWorld) fail(oracle, failure, format string, args ...interface{}) {
@@ -52,19 +98,41 @@ func RunSparseMatrix(c *core.Ctx) {
 	if t.Bool(4, 5) {
 		w.R, w.C = t.Range(1, 4), t.Range(1, 4)
 	}
-	w.a = ad.NullSparseMatrix(w.e.t, w.R, w.C)
-	w.m = make([]float64, w.R*w.C)
+	root := &smHandle{name: "a", a: ad.NullSparseMatrix(w.e.t, w.R, w.C), R: w.R, C: w.C}
+	SC := w.C
+	root.off = func(i, j int) int { return i*SC + j }
+	w.SR, w.SC = w.R, w.C
+	w.st = make([]float64, w.R*w.C)
+	w.hs = []*smHandle{root}
 	c.Logf("a = NullSparseMatrix(%s, %d, %d)", w.e.name, w.R, w.C)
 	nops := t.Range(3, 45)
 	for i := 0; i < nops; i++ {
 		c.Steps++
-		w.step()
-		w.pointCheck()
+		if t.Bool(1, 8) {
+			w.viewStep()
+		} else {
+			h := w.hs[0]
+			if len(w.hs) > 1 && t.Bool(1, 2) {
+				h = w.hs[1+t.Choose(len(w.hs)-1)]
+				w.viewOps++
+			}
+			w.load(h)
+			if h != w.hs[0] {
+				c.Logf("-- acting through %s (%dx%d view)", h.name, h.R, h.C)
+			}
+			w.step()
+			w.store()
+		}
+		w.checkAllHandles()
 	}
-	w.sweep()
-	w.pointCheck()
-	c.Nontriv = w.muts >= 4 && len(w.m) >= 2
-	c.Sample = map[string]interface{}{"element_type": w.e.name, "shape": fmt.Sprintf("%dx%d", w.R, w.C), "ops": nops, "mutations": w.muts}
+	for _, h := range w.hs {
+		w.load(h)
+		w.sweep()
+		w.store()
+	}
+	w.checkAllHandles()
+	c.Nontriv = w.muts >= 4 && len(w.st) >= 2
+	c.Sample = map[string]interface{}{"element_type": w.e.name, "shape": fmt.Sprintf("%dx%d", w.R, w.C), "ops": nops, "mutations": w.muts, "operations_through_slice_views": w.viewOps}
 }
 
 func (w *smWorld) mutated(kind string) { w.last = kind; w.muts++ }
@@ -163,6 +231,9 @@ func (w *smWorld) step() {
 	case 11:
 		w.accessors()
 	case 12: // Tip on a matrix that owns its storage
+		if len(w.hs) > 1 || w.cur != w.hs[0] {
+			return
+		}
 		c.Logf("a.Tip()")
 		w.guard("Tip", func() { w.a.Tip() })
 		nm := make([]float64, len(w.m))
@@ -607,5 +678,44 @@ func (w *smWorld) sweep() {
 	}
 	if !same {
 		w.fail("iteration", "sweep|positions", "iteration visited row-major positions %v (values %v), non-zero positions are %v (values %v), model %dx%d %s", got, vals, want, wv, w.R, w.C, fmtVals(w.m))
+	}
+}
+
+// viewStep creates a (nested) Slice view or forgets one.
+func (w *smWorld) viewStep() {
+	t := w.c.Tape
+	if len(w.hs) >= 4 {
+		k := 1 + t.Choose(len(w.hs)-1)
+		w.c.Logf("drop %s", w.hs[k].name)
+		w.hs = append(w.hs[:k], w.hs[k+1:]...)
+		return
+	}
+	cands := []*smHandle{}
+	for _, h := range w.hs {
+		if h.depth < 2 {
+			cands = append(cands, h)
+		}
+	}
+	p := cands[t.Choose(len(cands))]
+	r0 := t.Choose(p.R + 1)
+	r1 := r0 + t.Choose(p.R-r0+1)
+	c0 := t.Choose(p.C + 1)
+	c1 := c0 + t.Choose(p.C-c0+1)
+	nh := &smHandle{name: fmt.Sprintf("s%d", w.c.Steps), R: r1 - r0, C: c1 - c0, depth: p.depth + 1}
+	poff := p.off
+	nh.off = func(i, j int) int { return poff(r0+i, c0+j) }
+	w.load(p)
+	w.c.Logf("%s = %s.Slice(%d,%d,%d,%d)", nh.name, p.name, r0, r1, c0, c1)
+	w.guard("Slice", func() { nh.a = p.a.Slice(r0, r1, c0, c1) })
+	w.hs = append(w.hs, nh)
+	if nh.depth == 2 {
+		w.c.Count("probe:slice-of-slice")
+	}
+}
+
+func (w *smWorld) checkAllHandles() {
+	for _, h := range w.hs {
+		w.load(h)
+		w.pointCheck()
 	}
 }
